@@ -14,7 +14,7 @@ SPEC = {
          "integer-labelled graphs of 3-6 nodes incl. self-listed neighbours and one-way edges, planar (75%) or lat-lon; SQLite map filled in bulk, "
          "edge by edge, with deferred commit/index, import-style or by two bulk loads; a third of the maps are queried, extended through add_node/add_edge on both "
          "backends and queried again; 2 boxes cutting the node set; non-trivial = >= 3 distinct coordinates", "graphs <= 6 nodes")],
-    'extra_builders': {'setter': lambda prog, tier: [M.vc_use_latlon_setter(prog, v) for v in (True, False, None)] +
+    'extra_builders': {'setter': lambda prog, tier: [M.vc_use_latlon_setter(prog, v) for v in (True, False, None, 1, 0)] +
                                                     [M.vc_basemap_init(prog, v) for v in (True, False)]},
 }
 
